@@ -90,16 +90,16 @@ pub fn property() -> Property {
         subs: vec![prop_sub(
             "closed_loop",
             "C07 connections in which the peer waits for the reply to every management query before sending on; queries before the first request, between preamble records, inside bodies (handler blocked in read / fill_buf / writeable), right after a request's last record (same transport read as its end), after the last request; all handler scripts, reader/writer scripts; non-trivial = the peer actually waited on a query that has neighbouring records and the task parked at least once; distinct = hash of the case",
-            20_000,
-            600_000,
+            80_000,
+            2_000_000,
             |_| conn::conn_case(3, false, prop::bool::weighted(0.85).boxed()),
             test,
         ),
         prop_sub(
             "two_tasks",
             "the C10 harness (request reader on one task, 1..3 StreamWriters on others, generated poll order, pending/short writes) with management records in the reader's input: whenever the reader parks waiting for the client, the owed replies must already be on the log even if a writer task held the output lock mid-record, and a reader blocked on the lock must be woken when it is released; non-trivial as in C10; distinct = hash of the case",
-            20_000,
-            500_000,
+            150_000,
+            3_000_000,
             |_| crate::props::c10::case_strategy(),
             crate::props::c10::test,
         )],
